@@ -13,7 +13,7 @@ RULE = ('smooth/median: every array over {0,1,3}^n (n<=N) x every width x flags;
         'x every per-axis target incl. inadmissible ones x sample. A case is non-trivial when the oracle result differs '
         'from the plain input (smoothing/median changes something, uniq has >1 run or a non-identity index, rebin changes shape or must raise). '
         'Distinct = distinct (function, input, arguments) tuples.')
-ASSUMPTIONS = ['smooth is also run with one extreme sample (1e18, +-inf, nan) among ordinary ones; uniq also on float data scaled to 1e-300..1e17', 'values are small integers stored as float64 so that window sums are exact; division compared to 1e-12',
+ASSUMPTIONS = ['a subset of all cases is also run with the input in other memory layouts (big-endian, strided, read-only, reversed view, Fortran order)', 'smooth is also run with one extreme sample (1e18, +-inf, nan) among ordinary ones; uniq also on float data scaled to 1e-300..1e17', 'values are small integers stored as float64 so that window sums are exact; division compared to 1e-12',
                'widths (made odd) do not exceed the array length; medians use odd widths only',
                'integer-input averaging in rebin is outside the claim (the repository marks it xfail)']
 
@@ -121,6 +121,8 @@ def tasks(tier):
     for s in shapes:
         t.append({'f': 'rebin', 'shape': list(s)})
     t.append({'f': 'rebinrank'})
+    for lay in LAYOUTS:
+        t.append({'f': 'layout', 'layout': lay})
     for d0 in (1, 2, 3, 4, 5):
         t.append({'f': 'rebinbig', 'd0': d0, 'maxm': 120 if T else 60})
     return t
@@ -137,14 +139,45 @@ def _close(a, b, tol=1e-12):
     return bool(np.all(same | (np.isfinite(a) & np.isfinite(b) & near)))
 
 
+def apply_layout(a, k):
+    """The same values in another memory layout (what FITS readers, slicing and transposition hand to the functions)."""
+    if not k:
+        return a
+    if k == 'be':
+        return a.astype(a.dtype.newbyteorder('>'))
+    if k == 'strided':
+        return np.repeat(a, 2, axis=-1)[..., ::2]
+    if k == 'ro':
+        b = a.copy()
+        b.setflags(write=False)
+        return b
+    if k == 'F':
+        return np.asfortranarray(a)
+    if k == 'neg':
+        return np.ascontiguousarray(a[..., ::-1])[..., ::-1]
+    raise ValueError(k)
+
+
+LAYOUTS = ('be', 'strided', 'ro', 'neg', 'F')
+
+
 def check_case(case):
-    """Return list of (sig, msg) for one case dict."""
+    """Return list of (sig, msg) for one case dict; an exception of the function under test is a violation of its own."""
+    try:
+        return _check_case(case)
+    except Exception as e:
+        lay = case.get('layout')
+        return [('%s:exception:%s%s' % (case['f'], type(e).__name__, (':layout=' + lay) if lay else ''), repr(e)[:300])]
+
+
+def _check_case(case):
     import pydl
+    L = case.get('layout')
     f = case['f']
     bad = []
     if f == 'smooth':
         case = dict(case, x=[float(v) for v in case['x']])
-        sig = np.array(case['x'], dtype=float)
+        sig = apply_layout(np.array(case['x'], dtype=float), L)
         keep = sig.copy()
         got = pydl.smooth(sig, case['w'], edge_truncate=case['trunc'])
         exp = o_smooth(case['x'], case['w'], case['trunc'])
@@ -153,19 +186,19 @@ def check_case(case):
         if sig.tobytes() != keep.tobytes():
             bad.append(('smooth:input-modified', ''))
     elif f == 'median':
-        arr = np.array(case['x'], dtype=float)
+        arr = apply_layout(np.array(case['x'], dtype=float), L)
         got = pydl.median(arr, even=case['even'])
         exp = o_median_all(case['x'], case['even'])
         if not (np.ndim(got) == 0 and float(got) == exp):
             bad.append(('median:whole', 'got %r expected %r' % (got, exp)))
     elif f == 'median1':
-        arr = np.array(case['x'], dtype=float)
+        arr = apply_layout(np.array(case['x'], dtype=float), L)
         got = pydl.median(arr, width=case['w'])
         exp = o_median1(case['x'], case['w'])
         if not _close(got, exp):
             bad.append(('median:running1d', 'got %s expected %s' % (got.tolist(), exp)))
     elif f == 'median2':
-        arr = np.array(case['x'], dtype=float)
+        arr = apply_layout(np.array(case['x'], dtype=float), L)
         got = pydl.median(arr, width=case['w'])
         exp = o_median2(case['x'], case['w'])
         if not _close(got, exp):
@@ -176,6 +209,7 @@ def check_case(case):
             arr = np.where(arr == 2, np.inf, np.where(arr == 0, -np.inf, arr)).astype(case['dtype'])
         elif case.get('scale'):
             arr = arr * np.array(case['scale'], dtype=case['dtype'])
+        arr = apply_layout(arr, L)
         if case.get('index') is None:
             got = pydl.uniq(arr)
             exp = o_uniq(case['x'])
@@ -198,7 +232,7 @@ def check_case(case):
         d = tuple(case['d'])
         n = int(np.prod(shape))
         base = ((np.arange(n) * 7) % 5 + (np.arange(n) % 3)).reshape(shape)
-        x = base.astype(case['dtype'])
+        x = apply_layout(base.astype(case['dtype']), L)
         keep = x.copy()
         admissible = len(d) == len(shape) and all((dk % sk == 0) if dk >= sk else (sk % dk == 0) for dk, sk in zip(d, shape))
         try:
@@ -216,7 +250,7 @@ def check_case(case):
         exp = o_rebin(base, d, case['sample'])
         if got.shape != d:
             bad.append(('rebin:shape', 'got %s' % (got.shape,)))
-        elif got.dtype != x.dtype:
+        elif got.dtype.newbyteorder('=') != x.dtype.newbyteorder('='):
             bad.append(('rebin:dtype', 'got %s' % got.dtype))
         elif not _close(got, exp, 1e-6 if case['dtype'] == 'float32' else 1e-12):
             bad.append(('rebin:value', 'got %s expected %s' % (got.tolist(), exp.tolist())))
@@ -323,6 +357,29 @@ def run_task(task):
             for sample in (False, True):
                 _do(acc, {'f': 'rebin', 'shape': [d0], 'd': [d0 * m], 'sample': sample, 'dtype': 'float64'}, True)
                 _do(acc, {'f': 'rebin', 'shape': [2, d0], 'd': [2, d0 * m], 'sample': sample, 'dtype': 'float64'}, True)
+    elif f == 'layout':
+        # the same small-scope cases handed over in another memory layout
+        lay = task['layout']
+        for n in (3, 4, 5):
+            for x in itertools.product((0, 1, 3), repeat=n):
+                x = list(x)
+                for w in range(1, n + 1):
+                    if (w + 1 if w % 2 == 0 else w) <= n:
+                        for trunc in (False, True):
+                            _do(acc, {'f': 'smooth', 'x': x, 'w': w, 'trunc': trunc, 'layout': lay}, True)
+                    if w % 2 == 1:
+                        _do(acc, {'f': 'median1', 'x': x, 'w': w, 'layout': lay}, True)
+                for even in (False, True):
+                    _do(acc, {'f': 'median', 'x': x, 'even': even, 'layout': lay}, True)
+                if x == sorted(x):
+                    _do(acc, {'f': 'uniq', 'x': x, 'dtype': 'float64', 'index': None, 'layout': lay}, True)
+        for flat in itertools.product((0, 2), repeat=9):
+            _do(acc, {'f': 'median2', 'x': [list(flat[i * 3:(i + 1) * 3]) for i in range(3)], 'w': 3, 'layout': lay}, True)
+        for shape in ([4], [2, 3], [4, 2], [2, 2, 3]):
+            for d in itertools.product(*[targets(s_) for s_ in shape]):
+                if all((dk % sk == 0) if dk >= sk else (sk % dk == 0) for dk, sk in zip(d, shape)):
+                    for sample in (False, True):
+                        _do(acc, {'f': 'rebin', 'shape': shape, 'd': list(d), 'sample': sample, 'dtype': 'float64', 'layout': lay}, True)
     elif f == 'rebinrank':
         for shape in ([4], [2, 3], [2, 2, 2]):
             for d in ([4], [2, 2], [4, 1], [2, 3, 1], [8], [2, 2, 2], [1]):
